@@ -67,7 +67,11 @@ func Populate(s *tl.Schema, t tl.Type, v any, dst reflect.Value) error {
 		if dst.Kind() != reflect.Slice || dst.Type().Elem().Kind() != reflect.Uint8 {
 			return fmt.Errorf("go type %s cannot hold bytes", dst.Type())
 		}
-		dst.SetBytes(append(make([]byte, 0, len(x)), x...))
+		if len(x) == 0 && nilForEmpty() {
+			dst.SetBytes(nil) // nil is Go's natural empty byte string
+		} else {
+			dst.SetBytes(append(make([]byte, 0, len(x)), x...))
+		}
 	case tl.KString:
 		if dst.Kind() != reflect.String {
 			return fmt.Errorf("go type %s cannot hold string", dst.Type())
@@ -82,6 +86,10 @@ func Populate(s *tl.Schema, t tl.Type, v any, dst reflect.Value) error {
 		x := v.([]any)
 		if dst.Kind() != reflect.Slice {
 			return fmt.Errorf("go type %s cannot hold a vector", dst.Type())
+		}
+		if len(x) == 0 && nilForEmpty() {
+			dst.Set(reflect.Zero(dst.Type())) // nil slice = empty vector
+			return nil
 		}
 		sl := reflect.MakeSlice(dst.Type(), len(x), len(x))
 		for i := range x {
@@ -297,4 +305,13 @@ func extractFields(s *tl.Schema, c *tl.Combinator, src reflect.Value) (*tl.Objec
 		o.Fields[si] = v
 	}
 	return o, nil
+}
+
+var emptyToggle uint64
+
+// nilForEmpty alternates between the two Go representations of an empty
+// byte string / vector (nil and empty non-nil), so that both are exercised.
+func nilForEmpty() bool {
+	emptyToggle++
+	return emptyToggle%2 == 1
 }
